@@ -14,6 +14,7 @@ import Asn1Model.Constraints
 import Asn1Model.TypeCheck
 import Asn1Model.Cache
 import Asn1Model.X696
+import Asn1Model.X691
 import Asn1Model.X690Value
 import Asn1Model.X690
 import Asn1Model.X690Strict
@@ -225,6 +226,16 @@ def opSpec (args : List Sx) : String :=
       | "oer" =>
         let dev := " dev=(" ++ " ".intercalate (X696.deviations ty val) ++ ")"
         match X696.encode ty val with
+        | .ok bs => "ok " ++ (if bs.isEmpty then "-" else toHex bs) ++ dev
+        | .error e => "err " ++ uperErr e ++ dev
+      | "per" =>
+        let dev := " dev=(" ++ " ".intercalate (X691.deviations true ty val) ++ ")"
+        match X691.encode true ty val with
+        | .ok bs => "ok " ++ (if bs.isEmpty then "-" else toHex bs) ++ dev
+        | .error e => "err " ++ uperErr e ++ dev
+      | "uper" =>
+        let dev := " dev=(" ++ " ".intercalate (X691.deviations false ty val) ++ ")"
+        match X691.encode false ty val with
         | .ok bs => "ok " ++ (if bs.isEmpty then "-" else toHex bs) ++ dev
         | .error e => "err " ++ uperErr e ++ dev
       | "der" =>
